@@ -20,6 +20,7 @@ type Built struct {
 	S       Scenario
 	Target  *am.Func
 	Convs   []*am.Func
+	Defaults []am.Arg // default options of the target (NewFunc)
 	ValArgs []am.Arg // supplied values (call options), in scenario order after permutation
 	CnvArgs []am.Arg
 	Toks    []int // token of input j
@@ -48,7 +49,9 @@ func instantiate(s Scenario, r *rand.Rand, tok0 int) (b *Built, err error) {
 	if s.Mode == "convert" || s.Mode == "convcall" {
 		s.NDef = 0 // Convert has no function to attach defaults to
 	}
-	var defaults []am.Arg
+	// the default options live in a slice with spare capacity, as a caller who built it with append would
+	// pass it: the library must not write into that capacity
+	defaults := make([]am.Arg, 0, 16)
 	for j := 0; j < s.NDef && j < len(s.Inputs); j++ {
 		defaults = append(defaults, apiArg(s.Inputs[j], vals[j], r.Intn(6)))
 	}
@@ -59,6 +62,7 @@ func instantiate(s Scenario, r *rand.Rand, tok0 int) (b *Built, err error) {
 			s.Target.HasErr = true
 		}
 	}
+	b.Defaults = defaults
 	if s.Mode != "convert" && s.Mode != "convcall" {
 		b.Target, err = env.Build(0, s.Target, defaults...)
 		if err != nil {
@@ -483,7 +487,6 @@ type ConcConfig struct {
 func RunConcurrent(s Scenario, c ConcConfig, r *rand.Rand, gid func() int, register func(k int)) []interface{} {
 	s.Normalize()
 	s.Mode = "call"
-	s.NDef = 0
 	reset := EvReset{Ev: "reset", Sid: s.Sid, Scn: s}
 	b, err := Instantiate(s, r)
 	if err != nil {
@@ -500,6 +503,9 @@ func RunConcurrent(s Scenario, c ConcConfig, r *rand.Rand, gid func() int, regis
 	mkOpts := func() []am.Arg {
 		var out []am.Arg
 		for j, l := range s.Inputs {
+			if j < s.NDef {
+				continue // given as a default of the target
+			}
 			out = append(out, apiArg(l, vals[j], 1)) // variant 1: NamedSubtype / TypedSubtype spellings
 		}
 		return append(out, b.CnvArgs...)
@@ -510,7 +516,8 @@ func RunConcurrent(s Scenario, c ConcConfig, r *rand.Rand, gid func() int, regis
 	for k := 1; k <= c.G; k++ {
 		targets[k] = b.Target
 		if !c.ShareTarget {
-			if targets[k], err = env.Build(0, s.Target); err != nil {
+			// a private target built from the SAME default option slice (shared backing array)
+			if targets[k], err = env.Build(0, s.Target, b.Defaults...); err != nil {
 				ret := emptyRet("builderr", 1)
 				return []interface{}{reset, ret}
 			}
@@ -536,6 +543,13 @@ func RunConcurrent(s Scenario, c ConcConfig, r *rand.Rand, gid func() int, regis
 			}()
 			<-start
 			res := targets[k].Call(opts[k]...)
+			// what callers do with a shared function besides calling it: render the error, plan a redefinition
+			if e := res.Err(); e != nil {
+				_ = e.Error()
+			}
+			if nf, err := targets[k].Redefine(opts[k]...); err == nil {
+				_ = nf.Name()
+			}
 			env.mu.Lock()
 			rets[k] = b.classify(res, k)
 			env.mu.Unlock()
